@@ -107,8 +107,9 @@ Proof. exact face_parse_total. Qed.
 
 (* ---- any JSON value as a view tree, a text or a glyph: a value or an error, whatever the external
    deserialisers answer; the recursion is bounded by the nesting depth of the document *)
-Theorem C19_view_total : forall (orc : N -> json -> bool) (frgba : str -> option rgba) (k : vkind) (j : json),
-  no_panic (view_de_kind orc frgba k j).
+Theorem C19_view_total : forall (orc : N -> json -> bool) (frgba : str -> option rgba) (handlers : str -> bool)
+    (k : vkind) (j : json),
+  no_panic (view_de_kind orc frgba handlers k j).
 Proof. exact view_de_kind_total. Qed.
 
 (* ---- "any view tree that deserialises successfully can be laid out and rendered".
@@ -119,15 +120,21 @@ Proof. exact view_de_kind_total. Qed.
 
 (* every accepted document has such a view tree *)
 Theorem C19_view_tree_covers :
-  forall (orc : N -> json -> bool) (frgba : str -> option rgba) (K : content) (k : vkind) (j : json),
-    view_de_kind orc frgba k j = Ok tt -> exists v, view_tree orc frgba K k j = Ok v.
+  forall (orc : N -> json -> bool) (frgba : str -> option rgba) (K : content) (handlers : str -> bool)
+    (k : vkind) (j : json),
+    view_de_kind orc frgba handlers k j = Ok tt -> exists v, view_tree orc frgba K handlers k j = Ok v.
 Proof. exact view_tree_covers. Qed.
 
 (* and that view tree lays out under every valid constraint and renders into every surface cut out of a
-   canvas: no panic, no InvalidLayout, nothing outside the surface touched (C10_total) *)
+   canvas: no panic, no InvalidLayout, nothing outside the surface touched.  This is C10_total re-exported at
+   the view tree of a document (it holds for every vtree); C19's own content is the previous theorem and the
+   mapping `view_tree`, whose node structure (child count and order, wrapper unwrapping, trace-layout
+   transparent, cached ref with a node of its own) the run compares, as `vskel`, with the layout tree of the
+   really deserialised view (Corr/C19Corr.v CView) *)
 Theorem C19_view_layout_render :
-  forall (orc : N -> json -> bool) (frgba : str -> option rgba) (K : content) (k : vkind) (j : json) (v : vtree),
-    view_tree orc frgba K k j = Ok v ->
+  forall (orc : N -> json -> bool) (frgba : str -> option rgba) (K : content) (handlers : str -> bool)
+    (k : vkind) (j : json) (v : vtree),
+    view_tree orc frgba K handlers k j = Ok v ->
     forall (H W : nat) (vc : vctx) (c : ct) (sh : shape) (w : window) (s : rst),
       (Z.of_nat (Nat.max H W) <= Bounds.i64_max)%Z -> Valid c -> Rep H W sh w -> (H * W <= List.length (r_data s))%nat ->
       exists t s', layout vc v c = Ok t /\ render vc v t sh s = Ok s' /\ Frame sh (r_data s) (r_data s').
@@ -138,8 +145,8 @@ Check C19_image_roundtrip : forall img : image, image_ok img -> image_de (image_
 Check C19_image_total : forall j : json, no_panic (image_de j).
 Check C19_face_text : forall (o : str -> option rgba) (f : face),
   face_ok f = true -> face_parse o (face_print f) = Ok f.
-Check C19_view_total : forall (orc : N -> json -> bool) (frgba : str -> option rgba) (k : vkind) (j : json),
-  no_panic (view_de_kind orc frgba k j).
+Check C19_view_total : forall (orc : N -> json -> bool) (frgba : str -> option rgba) (handlers : str -> bool)
+    (k : vkind) (j : json), no_panic (view_de_kind orc frgba handlers k j).
 
 (* ---- non-vacuity *)
 Example C19_image_example :
@@ -199,10 +206,32 @@ Example C19_image_cropped_example :
   /\ image_de (image_ser (view_image sh data)) = Ok (view_image sh data).
 Proof. vm_compute. split; reflexivity. Qed.
 
+(* view_tree on a concrete document: flex of a cached ref, a handler type, a wrapper around a container of a
+   text, and an image_ascii; with the shape (vskel) the run compares with the real layout tree *)
+Example C19_view_tree_example :
+  let text := JObj [(s2l "type", JStr (s2l "text")); (s2l "text", JStr (s2l "a"))] in
+  let doc := JObj [(s2l "type", JStr (s2l "flex")); (s2l "children", JArr [
+      JObj [(s2l "type", JStr (s2l "ref")); (s2l "ref", JNum (NU 7))];
+      JObj [(s2l "type", JStr (s2l "custom"))];
+      JObj [(s2l "flex", JNum (NF 0)); (s2l "view", JObj [(s2l "type", JStr (s2l "trace-layout")); (s2l "view",
+              JObj [(s2l "type", JStr (s2l "container")); (s2l "child", text)])])];
+      JObj [(s2l "type", JStr (s2l "image_ascii")); (s2l "size", JArr [JNum (NU 1); JNum (NU 1)]); (s2l "data", JStr (s2l "AQID"))]])] in
+  let hs := fun t => str_eqb t (s2l "custom") in
+  view_tree (fun _ _ => true) (fun _ => None) (content0 true) hs KView doc
+  = Ok (VFlex Hor JStart
+         [(VRef (Some (VContainer (VText [] true) face0 AShrink AShrink (mkM 0 0 0 0) 0 0)), None, None, AShrink);
+          (VText [] true, None, None, AShrink);
+          (VContainer (VText [] true) face0 AShrink AShrink (mkM 0 0 0 0) 0 0, None, None, AShrink);
+          (VImageAscii 1 1 0, None, None, AShrink)])
+  /\ omap vskel (view_tree (fun _ _ => true) (fun _ => None) (content0 true) hs KView doc)
+     = Ok (SK [SK [SK [SK []]]; SK []; SK [SK []]; SK []])
+  /\ view_de_kind (fun _ _ => true) (fun _ => None) no_handlers KView doc = Err 9.
+Proof. vm_compute. repeat split; reflexivity. Qed.
+
 Example C19_view_example :
   let text := JObj [(s2l "type", JStr (s2l "text")); (s2l "text", JArr [JStr (s2l "a"); JObj [(s2l "face", JStr (s2l "bold")); (s2l "text", JStr (s2l "b"))]])] in
   let flex := JObj [(s2l "type", JStr (s2l "flex")); (s2l "children", JArr [text; JObj [(s2l "flex", JNum (NF 0)); (s2l "view", text)]])] in
-  view_de_kind (fun _ _ => true) (fun _ => None) KView flex = Ok tt
-  /\ view_de_kind (fun _ _ => true) (fun _ => None) KView (JObj [(s2l "type", JStr (s2l "tag")); (s2l "view", text)]) = Err 8
-  /\ view_de_kind (fun _ _ => true) (fun _ => None) KGlyph (JObj [(s2l "path", JStr []); (s2l "scene", JNull)]) = Err 2.
+  view_de_kind (fun _ _ => true) (fun _ => None) no_handlers KView flex = Ok tt
+  /\ view_de_kind (fun _ _ => true) (fun _ => None) no_handlers KView (JObj [(s2l "type", JStr (s2l "tag")); (s2l "view", text)]) = Err 8
+  /\ view_de_kind (fun _ _ => true) (fun _ => None) no_handlers KGlyph (JObj [(s2l "path", JStr []); (s2l "scene", JNull)]) = Err 2.
 Proof. vm_compute. repeat split; reflexivity. Qed.
